@@ -113,6 +113,33 @@ func propC03(t *rapid.T) {
 		}
 	}
 	m := w.wallets[rapid.IntRange(0, len(w.wallets)-1).Draw(t, "signer")]
+	// now and then one pending transaction pays the signer twice (two outputs of the same unconfirmed
+	// parent can then be spent together)
+	var twin2 []wire.OutPoint
+	if rapid.IntRange(0, 2).Draw(t, "doublePendingParent") == 0 {
+		view := w.chainView(t)
+		next := w.node.Height() + 1
+		for _, c := range view.live() {
+			if w.ownedByAny(c) || c.Class != clsStd || c.Value < 1000000 || !spendableAt(c, next) || !w.coinAllowed(c) || len(w.pendingSpenders(c.Op)) > 0 {
+				continue
+			}
+			ptx := wire.NewMsgTx()
+			ptx.AddTxIn(sim.Spend(c.Op.Hash, c.Op.Index, requiredSequence(c)))
+			a0 := m.issued[0].Hash
+			a1 := m.issued[len(m.issued)-1].Hash
+			ptx.AddTxOut(wire.NewTxOut(c.Value/2, sim.StdScript(a0)))
+			ptx.AddTxOut(wire.NewTxOut(c.Value/2-1000, sim.StdScript(a1)))
+			ptx.Payload = []byte{0xc3}
+			if err := w.env.H.VerifProcessTx(ptx); err != nil {
+				t.Fatalf("unconfirmed payment to the wallet refused: %v", err)
+			}
+			h := ptx.TxHash()
+			w.pending[h], w.everSeen[h] = ptx, ptx
+			twin2 = []wire.OutPoint{{Hash: h, Index: 0}, {Hash: h, Index: 1}}
+			w.flag("two-outputs-of-one-pending-parent")
+			break
+		}
+	}
 	if _, err := w.env.W.UseWallet(m.id); err != nil {
 		t.Fatalf("UseWallet: %v", err)
 	}
@@ -158,6 +185,25 @@ func propC03(t *rapid.T) {
 	nIn := rapid.IntRange(1, min(6, len(coins))).Draw(t, "nIn")
 	perm := rapid.Permutation(coins).Draw(t, "coinOrder")
 	ins := perm[:nIn]
+	if len(twin2) == 2 && rapid.Bool().Draw(t, "spendBothOutputs") {
+		// make sure both outputs of the pending parent are among the inputs
+		var both, rest []signCoin
+		for _, sc := range perm {
+			if sc.c.Op == twin2[0] || sc.c.Op == twin2[1] {
+				both = append(both, sc)
+			} else {
+				rest = append(rest, sc)
+			}
+		}
+		if len(both) == 2 {
+			k := rapid.IntRange(0, min(3, len(rest))).Draw(t, "extraIns")
+			ins = append(append([]signCoin{}, rest[:k]...), both...)
+			if rapid.Bool().Draw(t, "bothFirst") {
+				ins = append(append([]signCoin{}, both...), rest[:k]...)
+			}
+			nIn = len(ins)
+		}
+	}
 	flagName := rapid.SampledFrom([]string{"ALL", "NONE", "SINGLE", "ALL|ANYONECANPAY", "NONE|ANYONECANPAY", "SINGLE|ANYONECANPAY"}).Draw(t, "flag")
 	hashType := sigFlags[flagName]
 	tx := wire.NewMsgTx()
